@@ -118,6 +118,34 @@ def markerror(repo):
                 f"mark_error reports success under `{ast.unparse(t)[:70] if t is not None else '(no test)'}` without storing "
                 f"{code} and without finding it already stored: that error example leaves no cell in a freshly generated "
                 "parser, which then answers with another message than the shipped tables", m.rel, r.lineno, "Parser.mark_error")
+    # ... and every example is handed to it: the loop that feeds mark_error does so unconditionally
+    loops = 0
+    for cm in repo.modules.values():
+        if not cm.rel.startswith("compiler/front_end/") or cm.rel.endswith("_test.py"):
+            continue
+        for lp in ast.walk(cm.tree):
+            if not isinstance(lp, ast.For):
+                continue
+            calls = [c for c in ast.walk(lp) if isinstance(c, ast.Call) and isinstance(c.func, ast.Attribute) and c.func.attr == "mark_error"]
+            if not calls:
+                continue
+            loops += 1
+            res.instances += 1
+            for st in lp.body:
+                if any(c in list(ast.walk(st)) for c in calls):
+                    if isinstance(st, (ast.If, ast.For, ast.While, ast.Try, ast.With)):
+                        res.add(f"{cm.rel}|mark-loop|conditional", f"the loop over `{ast.unparse(lp.iter)[:40]}` calls mark_error only under "
+                                f"`{ast.unparse(st).splitlines()[0][:70]}`: some error examples mark no cell in a freshly generated parser",
+                                cm.rel, st.lineno)
+                    break
+                if any(isinstance(x, (ast.Continue, ast.Break, ast.Return)) for x in ast.walk(st)):
+                    res.add(f"{cm.rel}|mark-loop|skip", f"the loop over `{ast.unparse(lp.iter)[:40]}` can leave an iteration "
+                            f"(`{ast.unparse(st).splitlines()[0][:70]}`) before mark_error is called: every error example marks exactly one "
+                            "state, and examples that share a message reach different states, so skipped examples leave their states "
+                            "unmarked in a freshly generated parser (the shipped tables have them)", cm.rel, st.lineno)
+                    break
+    if loops < 1:
+        raise AnalysisError("no loop that feeds error examples to mark_error found under compiler/front_end")
     res.instances += 1
     if stores < 2:
         res.add("lr1.py|Parser.mark_error|stores", f"mark_error stores the error code on {stores} path(s); there must be one for "
